@@ -18,14 +18,6 @@ CONSTANTS Deviations      \* set of named deviations (known findings) switched o
 VARIABLES def, req, out
 pvars == <<def, req, out>>
 
-CompleteDef(pd) ==
-    LET lam == ABDE(pd.stack, pd.off)
-        sc  == ABDEScale(pd.stack, pd.off)
-    IN [model |-> pd.model, a |-> pd.a, b |-> pd.b, r |-> pd.r, sina |-> pd.sina, cosa |-> pd.cosa,
-        m |-> pd.m, n |-> pd.n, fl |-> pd.fl, y1 |-> pd.y1, y2 |-> pd.y2, mu |-> pd.mu,
-        off |-> pd.off, Ncte |-> pd.Ncte,
-        F |-> ABD6(lam), Fs |-> ABD6(sc), h |-> Thickness(pd.stack)]
-
 (* requests: [q |-> "k0"], [q |-> "kG0", N |-> <<Nxx,Nyy,Nxy>>], [q |-> "kM"],
    [q |-> "kA", flow, beta, gamma], [q |-> "cA", aeromu];  plus a placement
    [size, row0, col0] (size = 0 means the panel's own size, no offset) *)
